@@ -53,7 +53,9 @@ TRUSTED = ["_gjk_jolt.py: _distance_loop, update_simplex_ypq, max_y_length_squar
            "barycentric routines are taken from D3/Model/Simplex.lean (property C18)"]
 MANIFEST = dict(
     text=("Lean S2 theorems on the model of gjk_distance_jolt with abstract support oracles and solver specification "
-          "(invariant, feasibility, progress_gap, weak_duality, accuracy of every exit branch, clipped_only_beyond); "
+          "(inv_step/inv, feasible, exit_intersection, progress_gap, weak_duality, exit_stall_accuracy, "
+          "separated_positive, clipped_only_beyond, step_no_failure, terminates; BarySpec proved for the model of the "
+          "three barycentric routines outside their degenerate bands); "
           "step-wise correspondence on recorded traces of the real _distance_loop; certificate oracle (membership + "
           "verified distance bracket + exact ground truth) on the real gjk.gjk."),
     note=("trusted: Lean kernel + Mathlib, axioms propext/Classical.choice/Quot.sound; exact-real semantics; solver "
